@@ -941,6 +941,15 @@ def deferral_is_surgical(ctx, p):
         ctx.ob(p + 'x deferral-requeues-only-the-dereference', 'K4-provenance', pc.path,
                'what a deferral puts back at the end of the queue is not the whole commit: its key-value / btree / other-column operations keep their place in commit order (they are logged under the original id, or the commit is split)',
                not whole, 'defer_commit is handed commit.changeset as it is: every operation of the transaction moves behind the commits made after it', pc.loc(s2))
+    tree_lock_decision(ctx, p)
+
+
+def tree_lock_decision(ctx, p):
+    """F21: the log worker's check-then-lock on the tree reader."""
+    F = ctx.F
+    pc = ctx.body('db::DbInner::process_commits')
+    if not pc:
+        return
     # the decision "nobody uses the tree" is a test (is_locked) of a lock that is taken only later, by the walk, and released before
     # the removal is published: a reader can lock in between
     dec = False
@@ -1198,6 +1207,43 @@ def eof_is_the_only_end_of_data(ctx, p):
         ctx.ob(p + 'i first-record-id-from-a-complete-header', 'K4-confinement', ol.path,
                'open_log_file and its helpers obtain the header bytes with read_exact only (a file shorter than a header is reported as UnexpectedEof, not decoded from a partly filled buffer)',
                bool(exact) and not plain, 'read_exact sites %s, other read calls %s' % (exact, plain))
+
+
+def loop_iterates_ordered(b, lp):
+    """the sequence a `for` loop walks has an order fixed by the program: an ordered map, or a collection that was sorted (in place
+    or by an adaptor) on every path to the loop"""
+    th = b.term(lp['head'])
+    sl = backward_slice(b, [op_place(th['a'][0])]) if th['a'] and op_place(th['a'][0]) is not None else None
+    if sl is None:
+        return False
+    if any(re.search(r'::sort(_by|_by_key|_unstable|_unstable_by|_unstable_by_key|_by_cached_key)?$|BTreeMap|BTreeSet|BinaryHeap', c) for c in sl.calls):
+        return True
+    tys = ' '.join(str(b.locals[l]) for l in sl.locals if l < len(b.locals))
+    if 'BTreeMap' in tys:
+        return True
+    SORT = ['re:::sort(_by|_by_key|_unstable|_unstable_by|_unstable_by_key|_by_cached_key)?$']
+    srt = [bi for bi, t in b.calls() if bi in b.normal_blocks() and call_matches(t, SORT) and t['a'] and op_place(t['a'][0]) is not None
+           and (set(backward_slice(b, [op_place(t['a'][0])]).locals) & set(sl.locals))]
+    return bool(srt) and b.find_path([0], {lp['head']}, removed=set(srt)) is None
+
+
+def header_slot_written_last(ctx, p):
+    """ValueTable::init_with_entry creates the first entry of a btree column (slot 1, the tree header) together with the table
+    header (slot 0, fill mark 2). The fill mark is what is_init looks at: slot 0 has to reach the file LAST, so the slots are written
+    in an order the program fixes (descending), not in hash-map order - a stop between the two writes otherwise leaves a table that
+    counts as initialised with an all-zero tree header ('Invalid header length' on every access, for good) (F54)"""
+    F = ctx.F
+    b = ctx.body('table::ValueTable::do_init_with_entry')
+    if not b:
+        return
+    wr = b.call_sites('file::TableFile::write_at')
+    loops = [lp for lp in lib.for_loops_over(b) if any(x in b.reachable_from([lp['some']], removed={lp['head']}) for x in wr)]
+    ctx.ob(p + 'h0 init-write-loop', 'anchor', b.path, 'do_init_with_entry writes the planned slots to the file in a loop', len(wr) >= 1 and len(loops) >= 1, 'write sites %s loops %d' % (wr, len(loops)))
+    for lp in loops[:1]:
+        ok = loop_iterates_ordered(b, lp)
+        ctx.ob(p + 'h init-slots-written-in-a-fixed-order', 'K2-loop-order', b.path,
+               'the slots of a freshly initialised table are written in an order fixed by the program (the table header, whose fill mark makes the table count as initialised, last), not in hash-map order',
+               ok, '' if ok else 'the loop walks the hash map of planned slots directly: the header slot may be written first', b.loc(lp['head']))
 
 
 def record_sections_in_table_order(ctx, p):
